@@ -262,6 +262,12 @@ bool muggle_heap_remove(muggle_heap_t *p_heap, muggle_heap_node_t *node,
 
 	uint64_t idx = (uint64_t)tmp;
 	muggle_heap_node_t *last_node = &p_heap->nodes[p_heap->size--];
+	if (last_node == node)
+	{
+		// removed node occupied the last slot, there is no filler to move
+		return true;
+	}
+
 	uint64_t parent_idx = 0;
 	uint64_t child_idx = 0;
 	muggle_heap_node_t *parent = NULL;
